@@ -118,7 +118,13 @@ class CIGAR(list):
         if not re.fullmatch(r"^([0-9]+[MIDP])+$", string):
           raise gfapy.FormatError()
     for m in re.finditer("([0-9]+)([MIDNSHPX=])", string):
-      cigar.append(CIGAR.Operation(int(m.group(1)), m.group(2)))
+      try:
+        length = int(m.group(1))
+      except ValueError as err:
+        # (the interpreter limits the number of digits it converts)
+        raise gfapy.FormatError(
+          "Invalid length of a CIGAR operation: {}".format(err)) from err
+      cigar.append(CIGAR.Operation(length, m.group(2)))
     return cigar
 
   def __str__(self):
